@@ -228,6 +228,8 @@ class Discharger:
             r = self.negated_guard(f, bb)
             if r:
                 return r
+        if kind == "sort-comparator":
+            return self.total_order(f, bb, t)
         if kind == "index":
             rn = t.get("res_name") or ""
             if "RangeFull" in rn:
@@ -245,6 +247,43 @@ class Discharger:
             r = self.guarded_arith(f, bb, t)
             if r:
                 return r
+        return None
+
+    def total_order(self, f, bb, t):
+        """std's sorts panic (since 1.81) when the comparator is not a total order.  Discharged when the comparator
+        is `Ord::cmp` / `total_cmp`, or `partial_cmp(..).unwrap_or(Equal)` on a float field after a `retain` that keeps
+        only entries for which a comparison of that field with a constant holds (NaN fails every comparison)."""
+        facts = self.facts
+        clo = f.origin(t["args"][1]) if len(t["args"]) > 1 else ("unknown",)
+        if clo[0] != "agg" or clo[1] not in facts.fns:
+            return None
+        cf = facts.fns[clo[1]]
+        ret = cf.origin_place({"l": 0, "p": []})
+        calls = [x[1] for x in origin_calls(ret)]
+        if any(re.search(r"(total_cmp|std::cmp::Ord::cmp| as std::cmp::Ord>::cmp)$", c) for c in calls) and not any(re.search(r"partial_cmp$", c) for c in calls):
+            return ("D-TOTAL-ORDER", "comparator is a total order (Ord::cmp / total_cmp)")
+        pcs = [x for x in origin_calls(ret) if re.search(r"partial_cmp$", x[1])]
+        if not pcs:
+            return None
+        cmp_fields = set()
+        for a in pcs[0][2]:
+            cmp_fields |= origin_fields(a)
+        # the sorted vector
+        vec = shared.backward_slice_locals(f, [op_local(t["args"][0])])
+        dom = f.dominators(False)
+        for b2, t2 in f.calls():
+            if not call_matches(t2, r"Vec::<T(, A)?>::retain(_mut)?$") or not f.dominates(b2, bb, unwind=False):
+                continue
+            if not (shared.backward_slice_locals(f, [op_local(t2["args"][0])]) & vec):
+                continue
+            rc = f.origin(t2["args"][1])
+            if rc[0] != "agg" or rc[1] not in facts.fns:
+                continue
+            rf = facts.fns[rc[1]]
+            ro = rf.origin_place({"l": 0, "p": []})
+            if ro[0] == "binop" and ro[1] in ("Gt", "Ge", "Lt", "Le", "Eq") and (origin_fields(ro[2]) | origin_fields(ro[3])) & cmp_fields \
+                    and any(x[0] == "const" for x in (ro[2], ro[3])):
+                return ("D-TOTAL-ORDER", "entries whose key fails `%s <const>` (NaN fails every comparison) are removed by retain() before the sort, so partial_cmp is total on the rest" % ro[1])
         return None
 
     REL = {"Lt": {"<"}, "Le": {"<", "="}, "Gt": {">"}, "Ge": {">", "="}, "Eq": {"="}, "Ne": {"<", ">"}}
